@@ -1931,6 +1931,8 @@ class AsyncExecutor:
         if rampup_wait_time:
             self.logger.debug("client id [%s] waiting [%.2f]s for ramp-up.", self.client_id, rampup_wait_time)
             await asyncio.sleep(rampup_wait_time)
+        # the client's schedule starts when the client starts, i.e. after any ramp-up wait
+        schedule_start = time.perf_counter() if rampup_wait_time else total_start
 
         self.logger.debug("Entering main loop for client id [%s].", self.client_id)
         # noinspection PyBroadException
@@ -1939,7 +1941,7 @@ class AsyncExecutor:
                 if self.cancel.is_set():
                     self.logger.info("User cancelled execution.")
                     break
-                absolute_expected_schedule_time = total_start + expected_scheduled_time
+                absolute_expected_schedule_time = schedule_start + expected_scheduled_time
                 throughput_throttled = expected_scheduled_time > 0
                 if throughput_throttled:
                     rest = absolute_expected_schedule_time - time.perf_counter()
